@@ -6,7 +6,8 @@ Pr(op, a, b, c, v, w) == [op |-> op, a |-> a, b |-> b, c |-> c, v |-> v, w |-> w
 \* the body waits 0.15 s (less than the update period), a full turn (360 deg)
 McQuick == {Pr("move", 200, 0, 0, 0, 0), Pr("move", 0, -100, 0, 500, 0), Pr("move", 0, 0, -300, 0, 0),
             Pr("turn", 1, 36, 0, 72, 0), Pr("start", 0, 0, -200, 0, 0), Pr("stop", 0, 0, 0, 0, 0),
-            Pr("raise", 0, 0, 0, 0, 0), Pr("wait", 150, 0, 0, 0, 0), Pr("turn", 1, 360, 0, 72, 0)}
+            Pr("raise", 0, 0, 0, 0, 0), Pr("wait", 150, 0, 0, 0, 0), Pr("turn", 1, 360, 0, 72, 0),
+            Pr("raise", 1, 0, 0, 0, 0)}                      \* the body is left by a KeyboardInterrupt
 \* programs about time: the same command again some time after the last setpoint (stop while hovering, a
 \* velocity commanded again unchanged), pauses shorter and longer than the update period
 McTimed == {Pr("wait", 150, 0, 0, 0, 0), Pr("wait", 500, 0, 0, 0, 0), Pr("stop", 0, 0, 0, 0, 0),
@@ -18,12 +19,21 @@ McThorough == McQuick \cup
            {Pr("move", 0, 0, 100, 200, 0), Pr("circle", 1, 90, 100, 200, 0), Pr("move", 300, 400, 0, 500, 0),
             Pr("startcircle", -1, 0, 200, 500, 0), Pr("start", 100, -100, 100, 0, 45),
             Pr("turn", -1, 90, 0, 90, 0), Pr("move", -100, 0, 0, 100, 0), Pr("move", 0, 0, 0, 0, 0),
-            Pr("turn", -1, 450, 0, 90, 0), Pr("wait", 500, 0, 0, 0, 0)}
+            Pr("turn", -1, 450, 0, 90, 0), Pr("wait", 500, 0, 0, 0, 0),
+            Pr("raise", 2, 0, 0, 0, 0), Pr("raise", 4, 0, 0, 0, 0)}       \* SystemExit, a direct BaseException subclass
 \* PositionHlCommander: forward 0.5, down 0.6 (below the landing height), 0/-0.3/0.4 diagonal at 0.25,
 \* go_to(1, 0) at default height, set_default_velocity, set_default_height, set_landing_height, raise
 HlQuick == {Pr("move", 500, 0, 0, 0, 0), Pr("move", 0, 0, -600, 0, 0), Pr("goto", 1000, 0, 0, 0, 1),
             Pr("setv", 0, 0, 0, 250, 0), Pr("seth", 0, 0, 300, 0, 0), Pr("raise", 0, 0, 0, 0, 0)}
+\* several flights of one object (land on the default / on another height, take off again to the default / another
+\* height), from a start position that is not the origin
+HlCycle == {Pr("land", 0, 0, 0, 0, 1), Pr("land", 0, 0, 0, 250, 0), Pr("takeoff", 0, 0, 0, 0, 1), Pr("takeoff", 0, 0, 300, 250, 0),
+            Pr("move", 500, 0, 0, 0, 0), Pr("move", 0, 0, 200, 0, 0), Pr("setl", 0, 0, 100, 0, 0), Pr("raise", 3, 0, 0, 0, 0)}
+Lat3 == {150, 200, 250}
+Lat2 == {150, 250}
+Lat1 == {250}
 HlThorough == HlQuick \cup
            {Pr("move", 0, -300, 400, 250, 0), Pr("goto", 0, 0, 1000, 500, 0), Pr("setl", 0, 0, 700, 0, 0),
             Pr("move", 0, 0, 0, 0, 0), Pr("goto", 300, 400, 0, 100, 1)}
+HlSim == HlThorough \cup HlCycle
 ====
